@@ -230,6 +230,7 @@ pub struct Gen<'a> {
     cur_cost: usize,
     block_counter: usize,
     set_counter: usize,
+    stmt_count: usize,
 }
 
 fn escape_str_lit(s: &str) -> String {
@@ -259,6 +260,7 @@ impl<'a> Gen<'a> {
             cur_cost: 0,
             block_counter: 0,
             set_counter: 0,
+            stmt_count: 0,
         }
     }
 
@@ -764,6 +766,12 @@ impl<'a> Gen<'a> {
     fn stmt(&mut self, env: &Env) -> String {
         // every statement costs one unit per enclosing iteration
         self.cur_cost = self.cur_cost.saturating_add(env.mult);
+        // bounded source size: error reports quote the offending source line, and generated
+        // templates are mostly one line — a 100 KB template makes every error 200 KB
+        self.stmt_count += 1;
+        if self.stmt_count > 70 {
+            return "\n".to_string();
+        }
         let mut w = self.cfg.w;
         if self.cur_cost > self.cfg.cost_budget.saturating_mul(4) {
             // own work of a template stays bounded: only cheap statements from here on
@@ -1192,6 +1200,7 @@ impl<'a> Gen<'a> {
         self.cur_includes.clear();
         self.cur_blocks.clear();
         self.cur_cost = 1;
+        self.stmt_count = 0;
         let extends = if i > 0 && self.rng.below(1000) < self.cfg.inheritance {
             // parents with at least one block are more interesting
             let with_blocks: Vec<usize> = (0..i).filter(|j| !self.world.info[*j].chain_blocks.is_empty()).collect();
@@ -1359,6 +1368,7 @@ impl<'a> Gen<'a> {
         self.cur_includes.clear();
         self.cur_blocks.clear();
         self.cur_cost = 1;
+        self.stmt_count = 0;
         // a throwaway info entry so that include/callable see every template
         self.world.info.push(TplInfo { name: "__tera_one_off".into(), ..Default::default() });
         let env = Env { vars: vec![], ctx_visible: true, in_loop: false, can_break: false, blocks_allowed: false, cur_block: None, mult: 1, depth: 0, tpl: i, comp: None };
